@@ -43,7 +43,9 @@ var tthValueVocabulary = []string{ttheader.FrameTypeMeta, ttheader.FrameTypeHead
 var tthKeyVocabulary = []string{ttheader.HeaderIDLServiceName, ttheader.HeaderTransRemoteAddr, ttheader.HeaderTransToCluster, ttheader.HeaderTransToIDC, ttheader.HeaderTransPerfTConnStart,
 	ttheader.HeaderTransPerfTConnEnd, ttheader.HeaderTransPerfTSendStart, ttheader.HeaderTransPerfTRecvStart, ttheader.HeaderTransPerfTRecvEnd, ttheader.HeaderConnectionReadyToReset, ttheader.HeaderProcessAtTime,
 	// keys that differ from a named key only in letter case, or by one character
-	strings.ToLower(ref.ACLTokenKey), strings.ToUpper(ref.ACLTokenKey), strings.Title(strings.ToLower(ref.ACLTokenKey)), ref.ACLTokenKey + " ", ref.ACLTokenKey[1:], "ISN", "Rip", "k_processattime", "CRRST"}
+	strings.ToLower(ref.ACLTokenKey), strings.ToUpper(ref.ACLTokenKey), strings.Title(strings.ToLower(ref.ACLTokenKey)), ref.ACLTokenKey + " ", ref.ACLTokenKey[1:], "ISN", "Rip", "k_processattime", "CRRST",
+	// other spellings of the token key that exist around the library (metainfo prefixes, HTTP header form)
+	"gdpr-token", "rpc-transit-gdpr-token", "rpc-persist-gdpr-token", "RPC_PERSIST_gdpr-token", "RPC_TRANSIT_GDPR_TOKEN", "rpc_transit_gdpr-token", "Rpc-Transit-Gdpr-Token", "RPC_TRANSIT_", "RPC_PERSIST_"}
 
 func eqStrMap(a, b map[string]string) bool {
 	if len(a) != len(b) {
